@@ -431,5 +431,21 @@ func runC09(c *rt.Ctx) {
 	c.Require("grid-mixed-separator-layout", 100000)
 	c.Require("alphabet-accepted", 1)
 	c.Require("alphabet-nonexistent-day", 1)
+	// the text as other layers spell it (quoted, bracketed, escaped, padded, doubled, other scripts): not the text
+	for _, limit := range []int{10, 0, 60} {
+		date.MaxInputLength = limit
+		c.Parallel(fmt.Sprintf("decorated-%d", limit), 0, func(w *rt.W) {
+			bases := []string{"2021-03-04", "20210304", "0000-01-01", "9999-12-31", "2000-02-29", "19991231", "12345-06-07"}
+			for bi := w.Shard; bi < len(bases); bi += w.NShards {
+				for _, d := range decorate(bases[bi]) {
+					c09Case(w, d, 0, true)
+					c09Case(w, d, date.RuleDisableBasic, true)
+					w.ClassN("decorated-valid-text", 1)
+				}
+			}
+		})
+	}
+	date.MaxInputLength = 10
+	c.Require("decorated-valid-text", 1500)
 	c.Require("single-byte-substitution", 100000)
 }
